@@ -4,11 +4,20 @@ unit(s) on a scratch copy of /repo (never on /repo itself).  A mutant that still
 obligation discharged *survived* the contracts: either it is equivalent, or the contract is too weak there (the bounded
 run is then the only line of defence).  Results: /verif/mutation/<file>.json
 
-usage: mutate.py <file relative to the repo> <crate> <unit[,unit…]> [substring of fn keys to restrict to …]"""
+A survivor is then given to the bounded families named with --bounded (built against the scratch copy): killed there = the
+contract is weaker than the bounded check at that point; surviving both = most likely an equivalent mutant.
+
+usage: mutate.py <file relative to the repo> <crate> <unit[,unit…]> [substring of fn keys …] [--bounded fam,fam --focus Cxx]"""
 import sys, os, re, json, shutil, subprocess, tempfile, time
 sys.path.insert(0, "/verif/vf")
-relfile, crate, units = sys.argv[1], sys.argv[2], sys.argv[3].split(",")
-only = sys.argv[4:]
+args = sys.argv[1:]
+bounded_fams, focus = [], None
+if "--bounded" in args:
+    i = args.index("--bounded"); bounded_fams = args[i + 1].split(","); del args[i:i + 2]
+if "--focus" in args:
+    i = args.index("--focus"); focus = args[i + 1]; del args[i:i + 2]
+relfile, crate, units = args[0], args[1], args[2].split(",")
+only = args[3:]
 SCR = os.path.join(os.environ.get("TMPDIR", "/var/tmp"), "eyeball-mut.%d" % os.getpid())
 shutil.rmtree(SCR, ignore_errors=True)
 os.makedirs(SCR)
@@ -19,7 +28,21 @@ import gen, verus
 
 ext = json.loads(subprocess.run([gen.EXTRACT_BIN, os.path.join(SCR, relfile)], capture_output=True, text=True).stdout)[0]
 orig = open(os.path.join(SCR, relfile), "rb").read()
-fns = [it for it in ext["items"] if it["kind"] == "fn" and it["body"] and (not only or any(o in it["key"] for o in only))]
+# only functions the unit(s) actually have under contract (verified bodies; R-EXT and view-only functions are not)
+under = set()
+for u in units:
+    g0, _t0 = gen.generate("/verif/units/%s.vrs" % u)
+    ext_sites = set(x["what"] for x in g0.trusted if x.get("kind") == "R-EXT")
+    for site in g0.functions:
+        if site.startswith(relfile + "::") and site not in ext_sites:
+            under.add(site[len(relfile) + 2:].split("#closure")[0])
+fns = [it for it in ext["items"] if it["kind"] == "fn" and it["body"] and (not only or any(o in it["key"] for o in only))
+       and it["key"] in under
+       and not any(a["name"] in ("test", "cfg") for a in it.get("attrs", [])) and "test" not in it["key"].split("::")[-1]]
+print("under contract in %s: %d functions" % (",".join(units), len(under)), flush=True)
+def in_comment(pos):
+    ls = orig.rfind(b"\n", 0, pos) + 1
+    return b"//" in orig[ls:pos]
 
 OPS = [
     (rb"\+= 1\b", b"-= 1"), (rb"-= 1\b", b"+= 1"), (rb"\+= 1\b", b"+= 2"),
@@ -40,13 +63,15 @@ for it in fns:
     for pat, rep in OPS:
         for m in re.finditer(pat, body):
             a, b = bs + m.start(), bs + m.end()
+            if in_comment(a) or b"tracing::" in orig[orig.rfind(b"\n", 0, a) + 1:orig.find(b"\n", a)]:
+                continue
             line = orig.count(b"\n", 0, a) + 1
             mutants.append({"fn": it["key"], "line": line, "from": orig[a:b].decode(), "to": rep.decode(), "span": [a, b]})
     # statement deletion: single-line statements ending in `;` (not `let`, not `return`)
     off = bs
     for ln in body.split(b"\n"):
         st = ln.strip()
-        if st.endswith(b";") and not st.startswith((b"let ", b"return", b"//", b"#")) and b"{" not in st and b"}" not in st:
+        if st.endswith(b";") and not st.startswith((b"let ", b"return", b"//", b"#", b"tracing::")) and b"{" not in st and b"}" not in st:
             a = off + (len(ln) - len(ln.lstrip()))
             mutants.append({"fn": it["key"], "line": orig.count(b"\n", 0, a) + 1, "from": st.decode()[:60], "to": "<deleted>", "span": [a, off + len(ln)], "delete": True})
         off += len(ln) + 1
@@ -68,8 +93,30 @@ def run_units():
                   "notrun": bool(fe) or vr is None, "unposed": unposed, "stray": len(stray)}
     return out
 
+BND = None
+def run_bounded():
+    """build /verif/bounded against the scratch copy and run the families; -> number of failures for the focus property"""
+    global BND
+    if BND is None:
+        BND = os.path.join(SCR, "bounded")
+        shutil.copytree("/verif/bounded", BND, ignore=shutil.ignore_patterns("target"))
+        t = open(os.path.join(BND, "Cargo.toml")).read().replace("/repo/", SCR + "/")
+        open(os.path.join(BND, "Cargo.toml"), "w").write(t)
+    b = subprocess.run("cargo build --release --offline 2>&1 | tail -3", shell=True, cwd=BND, env=dict(env, CARGO_TARGET_DIR=os.path.join(SCR, "btarget")), capture_output=True, text=True)
+    n = 0
+    for fam in bounded_fams:
+        outp = os.path.join(SCR, "b.json")
+        subprocess.run([os.path.join(SCR, "btarget", "release", "bounded"), fam, "--tier", "quick", "--out", outp, "--known", "/verif/known_findings.json"] + (["--focus", focus] if focus else []), capture_output=True, text=True, timeout=1200)
+        try:
+            d = json.load(open(outp))
+            n += len([f for f in d.get("failures", []) if not f.get("known") and (focus is None or focus in f.get("properties", []))])
+        except Exception:
+            n += 1
+    return n
+
 base = run_units()
-assert all(not v["failed"] and not v["notrun"] for v in base.values()), base
+base_failed = set(sum((v["failed"] for v in base.values()), []))  # known findings of the unchanged tree
+assert all(not v["notrun"] for v in base.values()), base
 res = []
 t0 = time.time()
 for i, mu in enumerate(mutants):
@@ -83,7 +130,7 @@ for i, mu in enumerate(mutants):
         mu["verdict"] = "does-not-compile"
     else:
         r = run_units()
-        failed = sum((v["failed"] for v in r.values()), [])
+        failed = [x for x in sum((v["failed"] for v in r.values()), []) if x not in base_failed]
         if failed:
             mu["verdict"] = "killed"
             mu["obligations"] = failed[:4]
@@ -95,6 +142,9 @@ for i, mu in enumerate(mutants):
             mu["why"] = "rlimit"
         else:
             mu["verdict"] = "survived"
+            if bounded_fams:
+                mu["bounded_failures"] = run_bounded()
+                mu["verdict"] = "survived-verus-killed-by-bounded" if mu["bounded_failures"] else "survived-both"
     res.append(mu)
     print("%3d/%d %-16s %s:%d  %r -> %r  %s" % (i + 1, len(mutants), mu["verdict"], mu["fn"].split("::")[-1], mu["line"], mu["from"], mu["to"], ",".join(mu.get("obligations", []))), flush=True)
 open(os.path.join(SCR, relfile), "wb").write(orig)
